@@ -113,6 +113,82 @@ CHECKS = [
         "Trusted: kernel, model, the HDU abstraction, astropy fits/wcs, recorder tilers. Data cubes, CompImageHDU, the "
         "PV1_5 hack and blankval are not modelled.",
         "machine-checked proof (Coq) + model/implementation correspondence by vm_compute", "DESIGN.md section 5, C20"),
+    chk("C02",
+        "Coq proof over a Gallina model of TileMerger.walk_callback / averaging_merger / cascade: for every tile size k>0, both "
+        "vertical parities and all sparsity patterns the display-orientation parent pixel (i,j) is the average of the four "
+        "display-orientation mosaic pixels (2i+a, 2j+b) with child (2x+cx, 2y+cy) in quadrant (cx,cy) (merge_pixel; "
+        "merge_pixel_fixed for all contents incl. negative integers after fix a186b8b), float/integer averaging rules, existence "
+        "rule, cascade by induction over ANY children-first order (cascade_spec, cascade_order_independent, cascade_defined). "
+        "Tie to /repo: real cascade_images on 256x256 tiles (npy x 8 modes, png RGB/RGBA, fits float/int; start depth 1-3; "
+        "sparse leaves; serial and real parallel=2; with an accept-populated TOAST filter), every pixel of every produced "
+        "tile compared with the numpy expansion of the model's placement description, which is itself checked against the "
+        "full Gallina cascade at k=1..4. Partial: jpg pixels (existence only); the callback order is C01/C13's theorem.",
+        "Float rounding outside the model (test data scaled so every mean is exact). Parallel walks via real parallel=2 "
+        "runs (schedule-level theorems are C01's).",
+        "machine-checked proof (Coq) + model/implementation correspondence by vm_compute and per-pixel comparison", "DESIGN.md section 5, C02"),
+    chk("C06",
+        "Coq proof over a Gallina model of ToastSampler.visit_callback, PyramidIO write/update and the leaf visit, with the "
+        "tile coordinate function as a parameter: display pixel (i,j) of file (d,x,y) = sampler at coords(d,x,y)(i,j) for "
+        "both parities, file set = the level's tiles / accepted leaves, any leaf order gives the same store, two partial "
+        "samplers merge, for every depth incl. 0 and every default/override format (sample_pixel_repaired; the pre-fix "
+        "behaviours are kept as refutation witnesses sample_depth0_refuted, format_override_parity_refuted). Tie to /repo: "
+        "real sample_layer / sample_layer_filtered / Builder.toast_base with samplers hashing the float bits of (lon, lat), "
+        "depth 0-3, both coordinate systems, png/npy/fits, clobber and update, parallel=1 and real parallel=2, every pixel "
+        "compared exactly; level-0 grid checked against depth-8 tile centres.",
+        "Trusted: toast_tile_get_coords/create_single_tile as the expected coordinates (their geometry is C04/C05), the "
+        "image decoders, C15 mask semantics, C03/C13 leaf delivery.",
+        "machine-checked proof (Coq) + model/implementation correspondence by vm_compute and per-pixel comparison", "DESIGN.md section 5, C06"),
+    chk("C07",
+        "Coq proof over a rational-arithmetic Gallina model of the compiled bbox test (sorting network, span loop, shifting "
+        "loops, overlap tests), _latlon_tile_filter incl. numpy aliasing, chunk bounds and chunk sampler, and the "
+        "_image_bounds sampling positions: the sorting network sorts; bbox soundness (no false negative for any box width "
+        "and origin) under the explicit half-turn hypothesis; purity for every tile a generator produces; chunk boxes tile "
+        "the map edge to edge and mask exactly; the repaired refinement includes the coarse extreme and samples both window "
+        "ends (pre-fix behaviour kept as refutation witnesses); box_filter_complete / filtered_eq_unfiltered with the tile "
+        "geometry as an explicit parameter. Tie to /repo: ~5k-22k compiled-function decisions on exact rationals of doubles "
+        "with a 1e-9 margin, purity/aliasing experiments, chunk grids end to end, _image_bounds positions, and end-to-end "
+        "filtered = unfiltered sampling for boxes, TAN images and a pole probe. Not proved: that the continuous TAN "
+        "footprint's extreme is attained at a sampled position (assumption, as in the code's comment).",
+        "Trusted: the compiled _libtoasty.so validated bit-for-bit against the transpiled .pyx on every run; astropy WCS; "
+        "float rounding by margin.",
+        "machine-checked proof (Coq) + model/implementation correspondence by vm_compute and per-pixel comparison", "DESIGN.md section 5, C07"),
+    chk("C08",
+        "Coq proof over the Gallina model of StudyTiling (constructor, compute_for_subimage, image_to_tile, "
+        "count/generate_populated_positions) and tile_image with Python-slice semantics, fill_into_maskable_buffer and "
+        "write/read_image, for ALL widths and heights >= 1: least power-of-two square >= 256, floor-centred offsets, the "
+        "tuples' rectangles partition the image exactly (every pixel exactly once, inside image and tile, count = reported "
+        "count, slots = image_to_tile, injective), per-pixel reassembly in display orientation for both tile parities and "
+        "for sub-images. Tie to /repo: real StudyTiling on exhaustive small and random sizes to 2^40 and the real tile_image "
+        "+ read-back on 17 lossless (format, mode) pairs, every pixel compared.",
+        "Integer modes have no mask (undefined = 0). Sub-images of constructor-built tilings only.",
+        "machine-checked proof (Coq) + model/implementation correspondence by vm_compute and per-pixel comparison", "DESIGN.md section 5, C08"),
+    chk("C09",
+        "Coq proof over the Gallina model of MultiTanProcessor (global pixelisation over Q with an explicit common-grid "
+        "hypothesis, per-tuple placement for both input and tile parities, NaN-aware locked updates, clean_lockfiles): "
+        "tiles, tile files and global WCS equal those of study-tiling the pasted mosaic, for every input order, storage "
+        "parity, worker count and interleaving of atomic updates; no lock file survives. Tie to /repo: the real processor "
+        "(serial and fork-parallel 2/3) on generated FITS collections against the real study tiling of the pasted mosaic.",
+        "Per-tile atomicity of update_image is C10's theorem and is assumed here. Float inputs only. set_position_from_wcs "
+        "trusted to be a function. Parallel runs sample the OS scheduler.",
+        "machine-checked proof (Coq) + model/implementation correspondence by vm_compute and per-pixel comparison", "DESIGN.md section 5, C09"),
+    chk("C14",
+        "Coq proof on top of the C02 model: for scalar FITS modes, every depth, sparse population and contents with NaN, the "
+        "DATAMIN/DATAMAX cards of every present tile are the min/max over all finite leaf pixels beneath it (by induction "
+        "over levels), a tile is absent iff there are none, and the root's pair is what Builder.cascade copies to the WTML. "
+        "Tie to /repo: real FITS pyramids (leaves written by write_image, by update_image, or with arbitrary/missing cards), "
+        "cascaded serially and in parallel, cards of every tile read with astropy; ImageSet and WTML attributes read back.",
+        "Infinite pixel values outside the model. Order independence of the cards follows C02's structure and is not "
+        "separately proved.",
+        "machine-checked proof (Coq) + model/implementation correspondence by vm_compute and per-pixel comparison", "DESIGN.md section 5, C14"),
+    chk("C15",
+        "Coq proof over a Gallina model of pixel modes, Python slice normalisation (CPython's PySlice_AdjustIndices), "
+        "fill/update/clear/is_completely_masked and a tile store with histories: all C15 clauses for all 8 modes, buffer "
+        "sizes, slice pairs (incl. reversed rows), mask patterns and any sequence of writes/reads from any prior file state; "
+        "round-trip table per (format, mode). Tie to /repo: real Image methods on random small arrays and real PyramidIO "
+        "histories for npy/png/fits.",
+        "'Completely masked' is the code's own predicate (never for RGB/integers; all channels NaN for F16x3). jpg content, "
+        "non-lossless (format, mode) pairs and mismatched rectangles are outside the model.",
+        "machine-checked proof (Coq) + model/implementation correspondence by vm_compute and per-pixel comparison", "DESIGN.md section 5, C15"),
     chk("C19",
         "The faithful LTS models of the current code refute the property (Coq theorems c19_visit_returns_normally_refuted, "
         "c19_visit_hangs_refuted/deadlock, c19_walk_hangs_refuted, each a concrete schedule evaluated by the kernel); the "
